@@ -143,7 +143,7 @@ def run(tier, res, force_search=False):
         reps *= 3
     all_names = list(probes.window_debiasers(31, 1))
     extra_names = list(probes.window_debiasers_extra(31, 1))
-    scenarios = ["unequal", "equal-shifted", "reconf-step", "reconf-length", "reconf-both", "partial-times"]
+    scenarios = ["unequal", "equal-shifted", "reconf-step", "reconf-length", "reconf-both", "partial-times", "reordered"]
     for rep in range(reps):
         # tas settings of all eight debiasers x every scenario; further deterministic configurations (pr: multiplicative scaling,
         # relative SDM, the censored-gamma model fitted by an optimiser; other distributions; other ISIMIP variables) x two
@@ -210,6 +210,15 @@ def run(tier, res, force_search=False):
                     L = max(L, 15)  # multiplicative scaling of precipitation: no all-dry window (0/0)
                 Ln, Sn = L + (L % 2 == 0), S + (S % 2 == 0)
                 k_near = Ln // 2 + Sn // 2
+                storage = []
+                if scen == "reordered":
+                    # the time steps are not stored chronologically (reversed, shuffled, interior blocks swapped with the end
+                    # points left in place): locality is a statement about calendar days, not about storage positions
+                    (kO, pO), (kH, pH), (kF, pF) = (probes.storage_perm(rng, d.size) for d in (dO, dH, dF))
+                    if kF == "none" and kO == "none":
+                        kF, pF = "inner-blocks", probes.storage_perm(random.Random(rng.randint(0, 10**9)), dF.size)[1]
+                    dO, dH, dF = dO[pO], dH[pH], dF[pF]
+                    storage = [kO, kH, kF]
                 if name in all_names:
                     mk, data_kind = (lambda LL, SS: probes.window_debiasers(LL, SS)[name]()), "tas"
                 else:
@@ -239,10 +248,10 @@ def run(tier, res, force_search=False):
                         continue
                     ti = rng.choice(cand)
                 t = int(corrected_doy[ti])
-                kind = rng.choice(["x3", "+1e6", "nan"])
+                kind = rng.choice(["x3", "+1e6", "nan", "spike", "spike"])
                 case = {"what": "locality/" + name, "scenario": scen, "L": L, "S": S, "target_index": ti, "target_doy": t, "perturbation": kind,
                         "startO": str(rawO[0]), "startH": str(rawH[0]), "startF": str(rawF[0]), "nO": int(dO.size), "nH": int(dH.size), "nF": int(dF.size),
-                        "leap": leap, "seed": C.seed(), "time_encoding": enc, "time_arrays_omitted": list(omitted)}
+                        "leap": leap, "seed": C.seed(), "time_encoding": enc, "time_arrays_omitted": list(omitted), "storage_order": storage}
                 if scen.startswith("reconf"):
                     L0 = L if scen == "reconf-step" else L + rng.choice([10, 30])
                     # a stale (larger) step is what would widen the neighbourhood: prefer a larger step at construction
@@ -264,6 +273,13 @@ def run(tier, res, force_search=False):
                     y = x.copy()
                     if data_kind == "pr_wet" and kind == "nan":
                         y[far] = y[far] * 7  # (kept wet and finite)
+                    elif kind == "spike":
+                        # a handful of corrupt values far away (a goodness-of-fit test or a fallback of THEIR windows may react;
+                        # the target's window must not)
+                        fi = np.where(far)[0]
+                        if fi.size:
+                            sel = fi[np.unique(np.linspace(0, fi.size - 1, min(5, fi.size)).astype(int))]
+                            y[sel] = y[sel] * 50 + (1e6 if data_kind == "tas" else 1e3)
                     elif kind == "x3":
                         y[far] = y[far] * 3
                     elif kind == "x1.01":
